@@ -83,7 +83,7 @@ def run(formula, arr=None, mode='literal'):
     r = p.parse(f)
     res = r['result'] if r['error'] is None else ('ERR', r['error'])
     # the same call written with the other two argument separators (the array keeps its own spelling)
-    if '"' not in formula and "'" not in formula:
+    if '"' not in formula and "'" not in formula and '{' not in formula:     # (an array written out inside the template has commas of its own)
         for sep in (';', '\\'):
             alt = formula.replace(',', sep)
             f2 = alt.replace('@', lit(arr) if mode == 'literal' else ('arr' if mode == 'variable' else 'A1:C3'))
@@ -345,6 +345,11 @@ def explore(ctx):
         vals = [rng.choice([1, 'x', True, 2.5, 7]) for _ in range(n)]
         for i in range(-3, n + 4):
             work.append(('choose', (i, vals)))
+    for n in range(1, 4):
+        for _ in range(6):
+            vals = [rng.choice([[10, 20, 30], [7], [[1, 2], [3, 4]], 5, 'x', [1.5, 'a']]) for _ in range(n)]
+            for i in range(-1, n + 3):
+                work.append(('choose', (i, vals)))          # a choice may be a whole array: it is the value, not a list of choices
     for vs in pmap(_worker, work):
         for (k, c, w, cls, e, g) in vs:
             R.violate({k: list(c)}, w, cls, repr(e), repr(g))
